@@ -36,6 +36,7 @@ type c01Case struct {
 	Taps      int // late subscriptions to an intermediate topic made while the pipeline is busy (each acks whatever it gets)
 	Faults    []c01Fault
 	FanN      int  // number of outputs of the fan-out stage (0: two)
+	SameUUID  bool // the outputs of the fan-out stage all carry the UUID of the message they derive from (the lineage travels in the metadata)
 	DoneCtx   bool // every output carries a context that is done by the time the Router publishes it (derived from the delivery, released by a defer in the handler): the topics do not care
 }
 
@@ -64,6 +65,11 @@ func runC01(c *Ctx) error {
 		cases = append(cases, c01Case{Class: "wide-fan-out", K: 1 + n%2, FanOut: 1, FanN: n, Msgs: 1, Buffer: n % 3})
 	}
 	cases = append(cases, c01Case{Class: "wide-fan-out", K: 2, FanOut: 2, FanN: 150, Msgs: 2, Faults: []c01Fault{{2, 1, "pbefore"}}})
+	// fan-out outputs that share the UUID of the message they derive from (or have none)
+	for _, k := range []int{1, 2, 3} {
+		cases = append(cases, c01Case{Class: "fan-out-shared-uuid", K: k, FanOut: 1 + (k+1)%2, Msgs: 2, Buffer: k % 2, OneRouter: k == 3, SameUUID: true})
+	}
+	cases = append(cases, c01Case{Class: "fan-out-shared-uuid", K: 2, FanOut: 1, FanN: 5, Msgs: 2, SameUUID: true, Faults: []c01Fault{{1, 1, "pbefore"}, {2, 2, "herr"}}})
 	// outputs that travel with a finished context
 	for _, k := range []int{1, 2, 3} {
 		cases = append(cases, c01Case{Class: "outputs-with-done-context", K: k, FanOut: k % 2, Msgs: 2, Buffer: k % 2, OneRouter: k == 2, DoneCtx: true})
@@ -168,6 +174,14 @@ func (p c01Pub) Publish(topic string, msgs ...*message.Message) error {
 }
 func (p c01Pub) Close() error { return nil }
 
+// c01Lin is the lineage of a message: its UUID, unless the stage that produced it named it in the metadata (outputs that share a UUID).
+func c01Lin(m *message.Message) string {
+	if l := m.Metadata.Get("lin"); l != "" {
+		return l
+	}
+	return m.UUID
+}
+
 func c01Run(r *tr.Run, cs c01Case) (injected int) {
 	gc := gochannel.NewGoChannel(gochannel.Config{OutputChannelBuffer: int64(cs.Buffer), BlockPublishUntilSubscriberAck: cs.Blocking}, nil)
 	defer gc.Close()
@@ -212,7 +226,7 @@ func c01Run(r *tr.Run, cs c01Case) (injected int) {
 			}
 			outs := []string{}
 			for _, m := range msgs {
-				outs = append(outs, m.UUID)
+				outs = append(outs, c01Lin(m))
 			}
 			base := msgs[0].Metadata.Get("from")
 			cm := consumed[fmt.Sprintf("%d/%s", st, base)]
@@ -227,7 +241,8 @@ func c01Run(r *tr.Run, cs c01Case) (injected int) {
 		}}
 		mk := func(tin string) message.HandlerFunc {
 			return func(msg *message.Message) ([]*message.Message, error) {
-				x := msg.UUID
+				x := c01Lin(msg)
+				clean := msg.Metadata.Get("seen-by") == "" // a delivery is a copy of what was published: no stage has annotated it yet
 				if err := msg.Context().Err(); err != nil {
 					return nil, err // stages honour the context of the message they are given (a delivery arrives with a live one)
 				}
@@ -242,7 +257,7 @@ func c01Run(r *tr.Run, cs c01Case) (injected int) {
 				consumed[fmt.Sprintf("%d/%s", st, x)] = msg
 				mu.Unlock()
 				fk := map[string]string{"": "none", "herr": "error", "hpanic": "panic"}[kind]
-				r.Emit("hcall", "stage", st, "n", n, "x", x, "tin", tin, "fault", fk)
+				r.Emit("hcall", "stage", st, "n", n, "x", x, "tin", tin, "fault", fk, "clean", clean)
 				switch kind {
 				case "herr":
 					return nil, errScripted
@@ -261,6 +276,10 @@ func c01Run(r *tr.Run, cs c01Case) (injected int) {
 				}
 				mkOut := func(id string) *message.Message {
 					o := message.NewMessage(id, msg.Payload)
+					if cs.SameUUID && cs.FanOut == st {
+						o.UUID = msg.UUID
+						o.Metadata.Set("lin", id)
+					}
 					o.Metadata.Set("from", x)
 					o.Metadata.Set("tin", tin)
 					if cs.DoneCtx {
@@ -298,8 +317,8 @@ func c01Run(r *tr.Run, cs c01Case) (injected int) {
 	var ngot int32
 	go func() {
 		for m := range sinkCh {
-			r.Emit("sink", "x", m.UUID, "tin", sinkTopic)
-			if _, dup := got.LoadOrStore(m.UUID, true); !dup {
+			r.Emit("sink", "x", c01Lin(m), "tin", sinkTopic)
+			if _, dup := got.LoadOrStore(c01Lin(m), true); !dup {
 				atomic.AddInt32(&ngot, 1)
 			}
 			m.Ack()
